@@ -145,12 +145,29 @@ def check_per_upstream(ctx, R, classes):
                         if isinstance(t, ast.Subscript) and self_field(t) in fields:
                             mutated.add(self_field(t))
             missing = sorted(set(fields) - mutated)
-            ok = bool(txt_calls) and not missing
+            # ... and at least one mutation of each field must be unconditional (top level of the hook; a `for` over a
+            # popped value counts): a guard on node state makes the resize depend on the data seen so far
+            uncond = set()
+            for stmt in fn.node.body:
+                scope = [stmt.iter] if isinstance(stmt, (ast.For, ast.AsyncFor)) else ([stmt] if isinstance(
+                    stmt, (ast.Expr, ast.Assign, ast.AugAssign, ast.Delete)) else [])
+                for sc in scope:
+                    for n in ast.walk(sc):
+                        if isinstance(n, ast.Call) and isinstance(n.func, ast.Attribute) and self_field(n.func.value) in fields \
+                                and n.func.attr in ('append', 'pop', 'remove', 'discard', 'add', 'update', 'insert', 'popitem', 'clear'):
+                            uncond.add(self_field(n.func.value))
+                        if isinstance(n, ast.Subscript) and isinstance(n.ctx, (ast.Store, ast.Del)) and self_field(n) in fields:
+                            uncond.add(self_field(n))
+            conditional = sorted(set(fields) - uncond - set(missing))
+            ok = bool(txt_calls) and not missing and not conditional
             detail = ''
             if not txt_calls:
                 detail = '%s does not call the base implementation (the upstreams list is not updated)' % hook
             elif missing:
                 detail = '%s does not resize per-upstream field(s) %s' % (hook, ', '.join('self.' + m for m in missing))
+            elif conditional:
+                detail = '%s resizes %s only under a condition on node state: after some histories the per-upstream state is ' \
+                         'out of step with the inputs' % (hook, ', '.join('self.' + m for m in conditional))
             # index of the removed upstream must be taken before the base removal shrinks self.upstreams
             if ok and hook == '_remove_upstream':
                 base_line = txt_calls[0].lineno
@@ -294,6 +311,40 @@ def check_weak_and_sinks(ctx, R):
         R.ob('STRONG-SINK', ctx.construct(init_fn), 'reaches-Sink.__init__', bad is None and n > 0,
              'a constructor path of this sink does not reach Sink.__init__ exactly once (it would not be kept alive)',
              ctx.where(init_fn, init_fn.node.lineno), fmt_path(bad) if bad else None, n)
+
+
+def check_edit_reach(ctx, R):
+    """connect()/disconnect() only edit the edge: by name-based call-graph closure they reach neither destroy() nor the
+    removal from _global_sinks (a sink stays alive until it is *destroyed*)"""
+    M = ctx.model
+    by_name = {}
+    for c in M.nodes:
+        for mname, fn in c.methods.items():
+            by_name.setdefault(mname, []).append(fn)
+    for entry in ('connect', 'disconnect'):
+        start = M.stream.methods.get(entry)
+        if start is None:
+            raise AnalysisError('anchor vanished: Stream.' + entry)
+        seen, work = {}, [start]
+        bad = None
+        while work:
+            fn = work.pop()
+            if fn.fq in seen:
+                continue
+            seen[fn.fq] = fn
+            for n in own_nodes(fn.node):
+                if isinstance(n, ast.Call) and isinstance(n.func, ast.Attribute):
+                    if src(n.func.value) == '_global_sinks' and n.func.attr in ('remove', 'discard', 'clear', 'pop'):
+                        bad = (fn, n, 'unregisters the sink from _global_sinks')
+                    if n.func.attr == 'destroy':
+                        bad = bad or (fn, n, 'calls destroy()')
+                    for callee in by_name.get(n.func.attr, []):
+                        if n.func.attr.startswith('_') or n.func.attr in ('destroy',):
+                            work.append(callee)
+        R.ob('STRONG-SINK', ctx.construct(start), 'edits-only-the-edge', bad is None,
+             '%s() reaches %s which %s: merely re-wiring a sink drops its keep-alive reference' % (
+                 entry, bad[0].qual if bad else '?', bad[2] if bad else '?'),
+             ctx.where(bad[0], bad[1].lineno) if bad else ctx.where(start, start.node.lineno), None, len(seen))
 
 
 def check_destroy_super(ctx, R, classes):
